@@ -414,6 +414,9 @@ def main():
             import selftest as st
             selftest, sbroken = st.run(rule_names, scratch)
             extra_broken += sbroken
+            seeded, s2broken = st.run_seeded(prop, rule_names, scratch)
+            extra_broken += s2broken
+            selftest = dict(selftest or {}, seeded_changes=seeded)
         if wsum:
             selftest = dict(selftest or {}, witnesses=wsum)
         return decide(prop, rule_names, sites, stats, tier, t0, selftest, extra_broken)
